@@ -582,13 +582,13 @@ def connections_family(ctx, n, cases=None):
 CABI_OPS = ['rc', 'rd', 'rh', 'ri', 'wc', 'wr', 'wmc', 'wmr']
 
 
-def cabi_exception_family(ctx, quick):
+def cabi_exception_family(ctx, quick, given=None):
     """harness ffi_client: one request through the extern "C" functions against a scripted TCP peer that answers with the
     exception reply [fc|0x80, code]; what the C completion callback receives must be the Spec's name for that code
     (Spec/CAbiSpec.v cabi_exception_name) and what the generated conversion tables say (cabi_callback_exception)"""
     r = ctx.rng
-    cases = []
-    for code in range(256):
+    cases = [tuple(x) for x in given] if given else []
+    for code in ([] if given else range(256)):
         ops = CABI_OPS if (not quick or code in (1, 2, 3, 4, 5, 6, 8, 10, 11)) else [CABI_OPS[(code + r.randrange(8)) % 8]]
         for op in ops:
             cases.append((op, code))
@@ -624,6 +624,10 @@ def run(ctx):
     if ctx.replay and 'rtu_cases' in ctx.replay:
         n_rtu, _ = rtu_stream_family(ctx, 0, cases=ctx.replay['rtu_cases'])
         ctx.coverage.update({'evaluations': n_rtu, 'distinct_nontrivial': n_rtu, 'rule': 'replay of RTU byte-stream cases', 'samples': []})
+        return
+    if ctx.replay and 'cabi_cases' in ctx.replay:
+        n_c = cabi_exception_family(ctx, quick, given=ctx.replay['cabi_cases'])
+        ctx.coverage.update({'evaluations': n_c, 'distinct_nontrivial': n_c, 'rule': 'replay of C-ABI exception cases', 'samples': []})
         return
     if ctx.replay and 'conn_cases' in ctx.replay:
         n_c, _ = connections_family(ctx, 0, cases=ctx.replay['conn_cases'])
